@@ -48,8 +48,8 @@ AXES = [
                  'nan_template_channel']),
     ('monotone', [True, False, 'ties']),    # ties: equal times are not a decrease
     ('channel_map', ['identity', 'perm', 'sub', 'sub_high']),
-    ('sample_rate', [100.0, 25000.0, 2500.5]),   # 7 / 25000 * 25000 truncates to 6: rounding matters; a
-                                                 # rate need not be a whole number
+    ('sample_rate', [100.0, 25000.0, 2500.5, 0.05]),   # 7 / 25000 * 25000 truncates to 6: rounding matters;
+    # a rate need not be a whole number; at 0.05 Hz the recording is longer than one 600 s reader chunk
 ]
 AXDICT = dict(AXES)
 
